@@ -52,6 +52,4 @@ func Replay(res *HistResult, work string, w io.Writer) []Violation {
 	return r.Viol
 }
 
-func RunTwinHistory(o HistOpts) *HistResult    { return RunHistory(o) }
-func RunRestartHistory(o HistOpts) *HistResult { return RunHistory(o) }
 func RunHostileHistory(o HistOpts) *HistResult { return RunHistory(o) }
